@@ -44,6 +44,14 @@ func main() {
 			ScalarsOnly: *scalars, Groups: c.groups, CodecAll: *codecall}, res)
 	case "pairing":
 		err = alg.RunPairing(alg.Config{Prop: c.prop, In: c.in, Seed: c.seed, Bindings: *bindings, Max: *max}, res)
+	case "pickembed":
+		pc := alg.Config{Prop: c.prop, In: c.in, Seed: c.seed, Max: *max, MaxSlow: *maxslow, Groups: c.groups}
+		err = alg.RunPickEmbed(pc, res)
+		if err == nil && c.groups == "" {
+			alg.DataRange(pc, res, 400)
+		}
+	case "h2c":
+		err = alg.RunH2C(alg.Config{Prop: c.prop, Seed: c.seed}, res)
 	default:
 		err = fmt.Errorf("unknown driver %q", drv)
 	}
